@@ -622,7 +622,10 @@ def check_property(pid, tier, seed):
             hinted = set()
             for r in lenient_units:
                 for d in r["lenient"]["dropped"]:
-                    hinted.add(d.split(": ")[0] if ": " in d else d)     # entries are "<fn id>: <what>"
+                    # entries are "<fn id>: <what>"; a function id may itself contain ": " (`impl<T: Clone> ...`)
+                    fids = sorted((f["id"] for f in r["meta"]["functions"]), key=len, reverse=True)
+                    hit = next((fid for fid in fids if d == fid or d.startswith(fid + ": ")), None)
+                    hinted.add(hit if hit else (d.split(": ")[0] if ": " in d else d))
             undecided = [f for f in relevant_fail if (f["fn"] or "\0") in hinted]
             if undecided:
                 # undecided obligations: only a refutation that replays on the real code counts
@@ -742,9 +745,14 @@ def check_property(pid, tier, seed):
         cov["fixed_witnesses_replayed"] = len([k for k in known.get("fixed", []) if k["property"] == pid and k.get("witness")])
 
         # ---- violations
+        proved_by_kani = []
         for f in relevant_fail:
-            violations.append(report_failure(pid, f, cfg))
+            v = report_failure(pid, f, cfg)
+            (proved_by_kani if v.get("kani_proved") else violations).append(v)
         violations.extend(purity_viol)
+        if proved_by_kani and not violations:
+            cov["clauses_verus_could_not_discharge_but_kani_proves"] = [{"label": v["label"], "harnesses": v["kani_proved"]} for v in proved_by_kani]
+            raise Inconclusive("Verus could not discharge %s, but the complete Kani harnesses prove the same clauses on the compiled crate: a gap of the Verus proof after a restructuring, not a violation" % sorted(set(v["label"] for v in proved_by_kani))[:4])
         # ---- cheap cross-check on every run: the witness library and the sub-second finders are executed on the real
         # library although every obligation may have been discharged; a hit is a violation that replays on the real code
         # (this is what notices a change in a part the contracts only ASSUME, e.g. what the package checksum covers)
@@ -1044,8 +1052,11 @@ def report_failure(pid, f, cfg):
             if pref in harnesses:
                 harnesses.remove(pref)
                 harnesses.insert(0, pref)
+    kani_ok = []
     for h in harnesses:
-        kr = kani_run(h, playback=True)
+        kr = kani_run(h, playback=True, timeout=900)
+        if kr["status"] == "SUCCESS":
+            kani_ok.append(h)
         if kr["status"] == "FAILED" and kr["vecs"] and h in KANI_INPUTS:
             rj = decode_match_against(h, kr["vecs"])
             if rj:
@@ -1055,6 +1066,12 @@ def report_failure(pid, f, cfg):
                 rc, lines, err = run_replay(rp)
                 if rc == 1:
                     return {"label": f["label"], "replay": rp, "confirmed": True, "detail": lines[:3]}
+    # the complete (loop-free, full-domain) Kani harnesses of this function assert the same clauses on the compiled crate:
+    # if every one of them succeeds, the failed Verus obligation is a gap of the Verus proof (the code was restructured),
+    # not a violation - undecided
+    if harnesses and len(kani_ok) == len(harnesses) and f["label"].startswith("match_against."):
+        return {"label": f["label"], "replay": None, "confirmed": False, "kani_proved": kani_ok,
+                "detail": ["Verus could not discharge this clause, but the complete Kani harnesses %s prove it on the compiled crate" % kani_ok]}
     # 2. committed witness histories, then a bounded search (only used to attach a failing input)
     w = find_witness(pid)
     if w:
